@@ -289,6 +289,11 @@ func tagText(r *rng.R, n int) string {
 
 // mutate returns variations of a 64-byte image: single-byte changes inside fields and header,
 // non-BCD nibbles, wrong lengths.
+var calendarDates = [][3]int{{2023, 2, 29}, {2100, 2, 29}, {1900, 2, 29}, {2024, 2, 29}, {2000, 2, 29}, {2024, 2, 30}, {2023, 2, 28}, {2023, 4, 31}, {2023, 6, 31},
+	{2023, 13, 1}, {2023, 0, 10}, {2023, 1, 0}, {2023, 1, 32}, {2023, 12, 31}, {9999, 12, 31}, {2023, 2, 31}, {2023, 9, 31}, {2023, 11, 31}}
+
+func bcdByte(n int) byte { return byte(n/10)<<4 | byte(n%10) }
+
 func mutate(r *rng.R, img []byte, fs []fieldDesc) [][]byte {
 	out := [][]byte{}
 	cp := func() []byte { return append([]byte{}, img...) }
@@ -319,6 +324,31 @@ func mutate(r *rng.R, img []byte, fs []fieldDesc) [][]byte {
 			b[pos] = rng.Pick(r, byte(0x00), 0x01, 0x02, 0x13, 0x24, 0x25, 0x29, 0x30, 0x31, 0x32, 0x59, 0x60, 0x61, 0x99, 0xff)
 		}
 		out = append(out, b)
+	}
+	// impossible and borderline calendar dates in every date-bearing field: 29 February of leap and non-leap years
+	// (2100 and 1900 are not leap years), day 0 / 30 / 31 / 32, month 0 / 13
+	for _, f := range flat {
+		var year4 bool
+		switch f.Kind {
+		case "date", "dateptr", "datetime", "datetimeptr":
+			year4 = true
+		case "sysdate":
+		default:
+			continue
+		}
+		if w := kindWidth[f.Kind]; f.Off+w > 64 {
+			continue
+		}
+		for k := 0; k < 2; k++ {
+			d := calendarDates[r.Intn(len(calendarDates))]
+			b := cp()
+			if year4 {
+				copy(b[f.Off:f.Off+4], []byte{bcdByte(d[0] / 100), bcdByte(d[0] % 100), bcdByte(d[1]), bcdByte(d[2])})
+			} else {
+				copy(b[f.Off:f.Off+3], []byte{bcdByte(d[0] % 100), bcdByte(d[1]), bcdByte(d[2])})
+			}
+			out = append(out, b)
+		}
 	}
 	b := cp()
 	b[0] = rng.Pick(r, byte(0x17), 0x19, 0x18, 0x00)
